@@ -14,7 +14,7 @@ from __future__ import annotations
 
 import ast
 
-from ..astutil import dotted, norm
+from ..astutil import dotted, norm, walk_local
 from ..core import Ctx, PropSpec, Unsupported
 from ..extract import where
 from ..harness import Harness
@@ -160,6 +160,29 @@ def hooks(ctx: Ctx):
         required = [x.arg for x in pos[1:len(pos) - len(a.defaults)]] + [k.arg for k, d in zip(a.kwonlyargs, a.kw_defaults) if d is None]
         ctx.decide(not required, "R20.3", f"{fi.key}::no-required-argument", "CCSDSPacket() is a valid call",
                    f"CCSDSPacket.__init__ requires {required}: copy/pickle of the dict subclass reconstruct with cls()", where=where(fi, fi.node))
+    # pickle stores instances of a class by reference to module.<class __name__>: a namedtuple / dynamically created class whose
+    # name differs from the module-level name it is bound to cannot be pickled, and an instance kept in the state of a packet
+    # or value object (e.g. by a cached property) makes the whole packet unpicklable
+    n_dyn = 0
+    state_classes = set(classes)
+    for rel, m in prog.modules.items():
+        for bound, v in m.consts.items():
+            if not (isinstance(v, ast.Call) and v.args and isinstance(v.args[0], ast.Constant) and isinstance(v.args[0].value, str)):
+                continue
+            fn = (dotted(v.func) or "").split(".")[-1]
+            if fn not in ("namedtuple", "NamedTuple", "Enum", "IntEnum", "type", "make_dataclass", "TypedDict"):
+                continue
+            users = [fi for fi in prog.functions.values() if fi.cls is not None and fi.cls.name in state_classes and
+                     any(isinstance(n, ast.Name) and n.id == bound for n in walk_local(fi.node))]
+            if not users:
+                continue
+            n_dyn += 1
+            tname = v.args[0].value
+            ctx.decide(tname == bound, "R20.3", f"{rel}::{bound}::picklable-by-reference", f"{bound} = {fn}({tname!r}, ...)",
+                       f"`{bound} = {fn}({tname!r}, ...)` is used by {users[0].key}: its instances are pickled as {rel[:-3].replace('/', '.')}.{tname}, "
+                       f"a name that does not exist in the module, so a packet or value holding one cannot be pickled",
+                       where=where(users[0], users[0].node))
+    ctx.stats["dynamic_classes_in_state"] = n_dyn
     # the cursor: class-level default plus per-instance stores by the readers (so it lives in __dict__)
     ci = prog.classes.get("RawPacketData")
     if ci is not None:
